@@ -50,10 +50,7 @@ CHECKS: Dict[str, Dict[str, str]] = {
         design="3/C11",
     ),
     "C02": dict(
-        technique="static analysis: prefix / tag / header width expressions evaluated over every capacity and variant-count "
-        "class; every bit_length_set definition and both aggregation helpers abstractly evaluated over operands of an "
-        "abstract bit-length-set domain (canonical algebra terms with alignment facts, abstract branches explored both "
-        "ways) and compared with the Specification's terms",
+        technique="static analysis: prefix / tag / header width expressions evaluated over every capacity and variant-count class; every bit_length_set definition and both aggregation helpers abstractly evaluated over operands of an abstract bit-length-set domain (canonical algebra terms with alignment facts, abstract branches explored both ways) and compared with the Specification's terms; typed scan (scoped by call-graph reachability from the constructors and layout queries) for de-duplication / look-up of length sets or types by their approximate equality",
         text="Implicit-field widths are folded from the extracted expressions for 189 capacities x 2 alignments and 95 variant "
         "counts x 2 alignments (both sides of every 2**8/2**16/2**32 boundary) and compared with 'smallest of 8/16/32/64'; "
         "alignment definitions are folded over the reachable alignment domain; every bit_length_set definition and both "
@@ -64,9 +61,7 @@ CHECKS: Dict[str, Dict[str, str]] = {
         design="3/C02",
     ),
     "C16": dict(
-        technique="static analysis: kind/type inference + over-approximate call graph; who-may-call and reachability rules for the "
-        "numerical-expansion sinks; linear-form (interval/congruence) proof that enumeration counts inside modulo are "
-        "bounded by the divisor",
+        technique='static analysis: kind/type inference + over-approximate call graph; who-may-call and reachability rules for the numerical-expansion sinks; linear-form (interval/congruence) proof that enumeration counts inside modulo are bounded by the divisor (enumerations found through helper summaries); provenance analysis of every divisor handed to a residue query (constant / alignment / parameter traced to its call sites)',
         text="Decides the structural core of 'layout analysis stays symbolic': expansion sinks (Operator.expand overrides, "
         "BitLengthSet.__iter__/__len__, validate_numerically, any implicit iteration of a value of kind BitLengthSet) occur "
         "only in the allow-listed slow paths and the two DSDL intrinsics; no call-graph path leads from any model "
@@ -91,10 +86,7 @@ CHECKS: Dict[str, Dict[str, str]] = {
         design="3/C18",
     ),
     "C19": dict(
-        technique="static analysis: the reading pipeline (namespace reader, reference resolver, DSDLDefinition.read / "
-        "constructor, namespace lister, _complete_read_function) abstractly evaluated from the parsed source over an "
-        "abstract world of definition files that record every read / text load / content access; observations compared "
-        "with the dependency closure",
+        technique='static analysis: the reading pipeline (namespace reader, reference resolver, DSDLDefinition.read / constructor, namespace lister, _complete_read_function) abstractly evaluated from the parsed source over an abstract world of definition files that record every read / text load / content access (including twins, several minors, equal port-IDs); observations compared with the dependency closure; typed who-may-read scan (file contents are accessed only inside the definition class, for its own file)',
         text="Decides that only targets and the single filter-selected dependency are ever evaluated: every call site of read "
         "and every load of .text is enumerated from the call graph and its receiver must be a loop variable over the "
         "target list (or its file-pool twin), found[0] of the name+version filter, or self inside read; elements of lookup "
@@ -120,18 +112,8 @@ CHECKS: Dict[str, Dict[str, str]] = {
         design="3/C13",
     ),
     "C03": dict(
-        technique="static analysis: typestate automaton extracted from the parser and builder code (abstract interpretation over "
-        "the control state header-flag x pending-callback), explored exhaustively over grammar-derived line shapes and "
-        "endings; the builder driven through its public callbacks with composite / attribute constructors recorded; "
-        "grammar terminals compared as regular languages; decision tables of the directive handlers",
-        text="The attribute pipeline is a two-stage buffer; its correctness is a typestate property decided on an automaton that "
-        "is read off the code: every visitor's ordered effects (flush, queue, commit, schema reads, `---`) are extracted by "
-        "abstract interpretation and all sequences of line shapes (empty, blanks, comment, each statement kind with and "
-        "without trailing comment, each directive) x every ending are explored; obligations: a queued attribute is never "
-        "overwritten, never pending at a schema read or `---`, never pending at end of input (this found the last-attribute "
-        "loss, since repaired). Plus: append-only schema lists fed only by the deferred callbacks, visitor children at the "
-        "grammar positions, directive decision tables, composite construction flows, and the line-ending / blank terminals "
-        "as regular languages. The canonical re-rendering round trip is not decided.",
+        technique="static analysis: document model - the parser's visitors evaluated in parsimonious' visiting order over abstract texts (all sequences of line shapes up to a bound, both endings, messages and services) into the repository's own builder, with composite / attribute constructors recorded; the builder driven through its public callbacks; identifier resolution (`_offset_`, constants by name) asked of one builder at every point of a growing two-section definition; grammar terminals compared as regular languages; decision tables of the directive handlers",
+        text="Every sequence of line shapes (field, field with trailing comment, constant, padding, comment, empty line, line of blanks, directives) up to a bound, with both endings, as a message and as a service, is pushed through the repository's own parser visitors (evaluated in parsimonious' visiting order) into the repository's own builder; what the builder hands to the composite constructors is recorded and must contain every attribute once, in source order, in its section, with exactly the comment block that follows it (this found the last-attribute loss and the blank-line comment merge, both since repaired). Plus: append-only schema lists fed only by the deferred callbacks, directive decision tables, composite construction flows, identifier resolution against the current section (`_offset_`, constants), and the line-ending / blank terminals as regular languages. The canonical re-rendering round trip is not decided.",
         note="Trusted: parsimonious visits children before parents, left to right; statement kinds and their identifier/expression "
         "content are derived from the grammar file.",
         design="3/C03",
@@ -180,9 +162,7 @@ CHECKS: Dict[str, Dict[str, str]] = {
         design="3/C04",
     ),
     "C01": dict(
-        technique="static analysis: purity / alias lint over the solver classes, sibling-agreement of the memo slots, query-dependency "
-        "matrix, dataflow shape of every modulo() body (residue homomorphism), linear-form (interval + congruence) proof of "
-        "the repetition-count reduction, constant folding of the padding function",
+        technique='static analysis: purity / alias lint over the solver classes; the memoising operator and the BitLengthSet compositions constructed through their own constructors over stand-in operands with opaque token answers and interrogated (memo transparency, composition plumbing); query-dependency matrix; dataflow shape of every modulo() body (residue homomorphism); linear-form (interval + congruence) proof of the repetition-count reduction, the enumeration found through summaries of helper generators; analytic min / max evaluated on constructed operators over a grid; typed scan for containers / memos keyed by the approximate equality of a bit length set',
         text="Decides the structural necessary conditions of exactness, not the number theory itself: operators are immutable and "
         "nothing obtained from a child, a cache slot or an instance container is mutated or returned by reference (this is "
         "what makes 'operands are never changed' true); each memo slot holds exactly the child's answer to the same query; "
@@ -240,11 +220,7 @@ CHECKS: Dict[str, Dict[str, str]] = {
         design="3/C15",
     ),
     "C06": dict(
-        technique="static analysis: the codec (_serialize_any / _deserialize_any and their helpers) abstractly evaluated from the "
-        "parsed source over abstract schemas with an abstract writer / reader that record ALIGN / BITS / HEADER / "
-        "SUBREADER events; writer events compared with reader events and with the Specification's layout; dispatch "
-        "exhaustiveness over the class hierarchy; cast-mode actions evaluated over the whole width domain; defaults "
-        "table",
+        technique="static analysis: the codec (_serialize_any / _deserialize_any and their helpers) abstractly evaluated from the parsed source over abstract schemas with an abstract writer / reader that record ALIGN / BITS / HEADER / SUBREADER events; writer events compared with reader events (reader runs on data that is not exhausted) and with the Specification's layout; dispatch exhaustiveness over the class hierarchy; cast-mode actions evaluated over the whole width domain; defaults table; typed scan of the codec for memos / tables keyed by type equality",
         text="Decides the structural agreement of the independently written layout walkers - a necessary condition for the round "
         "trip and for 'the produced length is an element of bit_length_set': writer and reader traces are identical for "
         "structures, unions, both array kinds and every primitive kind; the writer's traces equal the layout model "
@@ -257,9 +233,7 @@ CHECKS: Dict[str, Dict[str, str]] = {
         design="3/C06",
     ),
     "C08": dict(
-        technique="static analysis: the offset iterators abstractly evaluated over abstract fields in the bit-length-set term "
-        "domain; each yielded offset compared with the aggregation of the preceding fields; exactly-once-yield "
-        "observation; wiring of the in-language intrinsics by dataflow and evaluation",
+        technique='static analysis: the offset iterators abstractly evaluated over abstract fields in the bit-length-set term domain; each yielded offset compared with the aggregation of the preceding fields; exactly-once-yield observation; the in-language intrinsics asked of one builder in every ordered pair of states; typed scan (scoped by call-graph reachability from the iterators and the intrinsic) for tables / memos keyed by the approximate equality of a length set or type',
         text="Decides: the four iterators (structure, union, delimited, fixed array) pad the base to the type's alignment and "
         "place each field / element exactly where the layout model and the encoder place it (the iterator's per-field step is "
         "the aggregation step of the layout model), with one unconditional yield per iteration; `_offset_` is the aggregate of "
